@@ -23,12 +23,13 @@ Full(host, segs) == Ref("http", host, TRUE, segs, "", "")
 SchemeRel(host, segs) == Ref("", host, TRUE, segs, "", "")
 Style(sel, urls) == [k |-> "style", sel |-> sel, urls |-> urls]
 
-Order == <<"main", "a", "b", "p", "c", "d", "e", "z", "f", "g", "hh">>
+Order == <<"main", "a", "b", "p", "c", "d", "e", "z", "f", "g", "hh", "t">>
 Pos(id) == CHOOSE i \in 1..Len(Order) : Order[i] = id
 Loc == [main |-> Url("h", <<"css", "main.css">>), a |-> Url("h", <<"css", "a.css">>), b |-> Url("h", <<"css", "sub", "b.css">>),
-        p |-> Url("h", <<"css", "deep", "er", "p.css">>), c |-> Url("h", <<"c.css">>), d |-> Url("h", <<"sib", "d.css">>),
+        p |-> Url("h", <<"css", "deep", "er", "p.css">>), c |-> Url("h", <<"c.css">>), d |-> Url("h", <<"si*", "d.css">>),
         e |-> Url("h", <<"abs", "e.css">>), f |-> Url("h2:8080", <<"x", "f.css">>), g |-> Url("h2:8080", <<"x", "g.css">>),
-        hh |-> Url("h2:8080", <<"x", "y", "h.css">>), z |-> Url("h", <<"css", "z.css">>)]
+        hh |-> Url("h2:8080", <<"x", "y", "h.css">>), z |-> Url("h", <<"css", "z.css">>),
+        t |-> Url("h", <<"css", "theme", "">>)]          \* a directory URL ("css/theme/"): its last segment is empty, its base is itself
 Body == [main |-> <<Style(".m", <<Rel(<<"m.png">>), Rel(<<"img", "m.png">>), Rel(<<"..", "m.png">>)>>)>>,
          a |-> <<Style(".a", <<Rel(<<"a.png">>), Ref("", "", FALSE, <<"img", "a.png">>, "v=1", ""), Ref("", "", FALSE, <<"..", "up", "a.svg">>, "", "f")>>)>>,
          b |-> <<Style(".b", <<Rel(<<"b.png">>), Rel(<<"..", "b2.png">>), Rel(<<"..", "..", "b3.png">>), Root(<<"root", "b.png">>)>>),
@@ -41,6 +42,7 @@ Body == [main |-> <<Style(".m", <<Rel(<<"m.png">>), Rel(<<"img", "m.png">>), Rel
          f |-> <<Style(".f", <<Rel(<<"f.png">>), Root(<<"r", "f.png">>)>>)>>,
          g |-> <<[k |-> "page", sel |-> "@page", urls |-> <<Rel(<<"g.png">>), Rel(<<"m", "g.png">>)>>]>>,
          hh |-> <<Style(".h", <<Rel(<<"..", "h.png">>)>>)>>,
+         t |-> <<Style(".t", <<Rel(<<"img", "t.png">>), Rel(<<"..", "t2.png">>)>>)>>,
          z |-> <<>>]            \* an empty sheet is available, not missing: importing it contributes nothing
 
 \* ---- references from one file to another ---------------------------------------------------------------------------------
